@@ -223,7 +223,48 @@ func check(prop, tier string) int {
 			workers = 4 // the machine is busy (other checks running side by side): fewer solver races at once
 		}
 	}
-	results := vc.SolveAll(all, smtDir, timeout, workers)
+	// the obligation of a listed open finding is expected to fail: it gets a short budget (enough to notice that it
+	// passes, should the defect have been repaired) instead of holding up the run
+	isKnownOpen := func(name string) bool {
+		for k := range findings {
+			if findings[k].Obligation == name && findings[k].Status == "open" && findings[k].Property == prop {
+				return true
+			}
+		}
+		return false
+	}
+	var knownIdx, restIdx []int
+	for i, o := range all {
+		if isKnownOpen(o.Name) {
+			knownIdx = append(knownIdx, i)
+		} else {
+			restIdx = append(restIdx, i)
+		}
+	}
+	results := make([]*vc.Result, len(all))
+	{
+		var rest, known []*vc.Obligation
+		for _, i := range restIdx {
+			rest = append(rest, all[i])
+		}
+		for _, i := range knownIdx {
+			known = append(known, all[i])
+		}
+		shortT := timeout
+		if shortT > 12 {
+			shortT = 12
+		}
+		kch := make(chan []*vc.Result, 1)
+		go func() { kch <- vc.SolveAll(known, smtDir, shortT, 2) }()
+		rr := vc.SolveAll(rest, smtDir, timeout, workers)
+		kr := <-kch
+		for k, i := range restIdx {
+			results[i] = rr[k]
+		}
+		for k, i := range knownIdx {
+			results[i] = kr[k]
+		}
+	}
 	// An obligation that ran out of time while everything was being solved at once (and possibly while other checks
 	// were running on the same machine) is tried again on its own, two at a time, with twice the budget, before it
 	// is reported: a timeout under load is not a verdict.
